@@ -247,6 +247,17 @@ fn shapes() -> Vec<(Vec<(String, String)>, bool)>
 				let text = if constant_first { format!("{constant}{function}{main}") } else { format!("{function}{main}{constant}") };
 				out.push((vec![("m.pn".to_string(), text)], wasm));
 			}
+			// ... and `main` itself sharing its name with a constant
+			if !flags.contains("extern")
+			{
+				for constant_first in [true, false]
+				{
+					let constant = "const main: i32 = 7;\n";
+					let rest = format!("fn helper() -> i32\n{{\n\treturn: main\n}}\n{flags}fn main() -> i32\n{{\n\tvar x: i32 = helper();\n\treturn: x\n}}\n");
+					let text = if constant_first { format!("{constant}{rest}") } else { format!("{rest}{constant}") };
+					out.push((vec![("m.pn".to_string(), text)], wasm));
+				}
+			}
 			for (helper, signature, builtin) in [("abort", "()", "panic!(\"x\");"), ("write", "(a: i32)", "print!(\"x\");"), ("snprintf", "(a: i32)", "print!(\"x\", 1);")]
 			{
 				let head_only = flags.contains("extern");
